@@ -27,6 +27,11 @@ tie (T-acc + T-diff), every run:
   (d) hierarchies contain component lists (also nested lists) whose elements are built with DIFFERENT arguments; (b) is applied to
       every element with the module name ACTUALLY instantiated for it in the parent's text (whatever its own name is), and a
       module that is emitted but instantiated nowhere is reported;
+  (f) parameter kinds include bitstruct CLASSES that share a name but differ in fields (mk_bitstruct with equal names, factory-made
+      classes, nested), lists/tuples of types, and construct() arguments supplied through set_param (single instances, list
+      elements, with and without defaults).  The name model and the sharing check use the EFFECTIVE arguments: every generated
+      class records what construct() really received, and "alone" = the same instance of a second, identically built hierarchy
+      (same arguments, same set_param calls) translated as a translation top.  All designs import ONE library module.
   (e) every IEEE 1800-2017 keyword is used as port / wire / instance / update-block name of a small design: the design is
       rejected by the translator or its table must pass idents_legal_b in Coq.  The 27 keywords pymtl3's table never had are a
       fixed list in this file (not read from the implementation).
@@ -1149,11 +1154,15 @@ def _replay(ctx, r):
     (ctx.scratch / f'{m.group(1)}.py').write_text(AUX)
     (ctx.scratch / f'{m.group(1).replace("aux", "lib")}.py').write_text(PRELUDE)
   cls, mod = sc.load_source(ctx, src, topn)
-  top = cls()
+  build = getattr(mod, 'build', cls)
+  top = build()
   txt, topmod = translate_obj(top)
   tbl = parse_sv(txt)
   print(txt)
   bad = 0
+  top2 = build(); top2.elaborate()
+  orphans = sorted(x['name'] for x in tbl['mods'] if x['name'] not in ({a for y in tbl['mods'] for a, _ in y['insts']} | {topmod}))
+  if orphans: print('emitted but never instantiated:', orphans); bad += 1
   names = [x['name'] for x in tbl['mods']]
   print('modules:', names)
   for md in tbl['mods']:
@@ -1172,13 +1181,13 @@ def _replay(ctx, r):
     if not cand: continue
     used[id(m)] = cand[0]
     try:
-      atxt, amod = translate_obj(type(m)(*m._dsl.args, **m._dsl.kwargs))
+      atxt, amod = translate_sub(top2, repr(m))
       am = next((x for x in parse_sv(atxt)['mods'] if x['name'] == amod), None)
     except Exception as e:
       print(f'instance {m}: not translatable alone ({type(e).__name__})'); continue
     same = am is not None and cand[0] in modidx and am['body'] == modidx[cand[0]]['body']
     print(f'instance {m}: module {cand[0]!r}; alone it is {amod!r}; body identical to the shared definition: {same}')
-    if amod == cand[0] and not same: bad += 1
+    if not same: bad += 1
   if rp.get('runs'):
     jobs = [(mod.__file__, topn)]
     res = run_workers(ctx, jobs, [1, 2])
